@@ -167,6 +167,10 @@ class Replayer:
             for idx, o in enumerate(st["store"]):
                 if not self.compare(op, kinds, f"store[{idx + 1}]", RA.expected(o), objs[idx], info):
                     objs[idx] = RA.make_obj(o, cplx)        # repair, so that later steps are judged on their own
+        if self.nbeh in (1, 500) and steps:
+            self.rep.sample(dict(behaviour=[f"{e['op']}(i={e['i']}, j={e['j']}, s={e['s']}, g={e['g']}) -> {e['out']}" for e, _ in steps],
+                                 initial_store=[RA.sig(o) for o in init_store],
+                                 final_store=RA.jsonable([RA.expected(o) for o in steps[-1][1]["store"]])))
 
     def compare(self, op, kinds, what, exp, real, info):
         try:
@@ -449,7 +453,6 @@ def check(pid, tier):
     if missing:
         raise MachineryError(f"operations never replayed on the real classes: {missing}")
     rep.part("replay", behaviours=replayer.nbeh, steps_per_operation=replayer.ops)
-    rep.sample(dict(behaviour="see evidence parts; operations replayed", ops=replayer.ops))
 
     # ---------------- sensitivity: plausible wrong implementations must be rejected by TLC
     sens = {}
